@@ -57,6 +57,7 @@ type State struct {
 	Txl      []int  `json:"txl"`
 	Tail     int    `json:"tail"`
 	Resolve  []int  `json:"resolve"`
+	DResolve []int  `json:"dresolve"`
 	RResolve []int  `json:"rresolve"`
 	Ev       Events `json:"ev"`
 	Err      string `json:"err"`
@@ -303,7 +304,7 @@ func (n *Node) project() (State, []string) {
 	N := len(u.tree.Parent)
 	var odd []string
 	st := State{Known: []int{}, HasState: []int{}, Rcpt: []int{}, Canon: make([]int, N), Txl: make([]int, u.tree.Ntx),
-		Resolve: make([]int, u.tree.Ntx), RResolve: make([]int, u.tree.Ntx)}
+		Resolve: make([]int, u.tree.Ntx), DResolve: make([]int, u.tree.Ntx), RResolve: make([]int, u.tree.Ntx)}
 	for b := 1; b <= N; b++ {
 		h, num := u.blocks[b].Hash(), uint64(u.num[b])
 		hasH, hasB := rawdb.HasHeader(db, h, num), rawdb.HasBody(db, h, num)
@@ -344,7 +345,7 @@ func (n *Node) project() (State, []string) {
 	}
 	for t := 1; t <= u.tree.Ntx; t++ {
 		h := u.txs[t].Hash()
-		st.Txl[t-1], st.Resolve[t-1], st.RResolve[t-1] = -1, -1, -1
+		st.Txl[t-1], st.Resolve[t-1], st.DResolve[t-1], st.RResolve[t-1] = -1, -1, -1, -1
 		if e := rawdb.ReadTxLookupEntry(db, h); e != nil {
 			st.Txl[t-1] = int(*e)
 		}
@@ -358,11 +359,7 @@ func (n *Node) project() (State, []string) {
 			}
 		}
 		if tx, bh, _, _ := rawdb.ReadCanonicalTransaction(db, h); tx != nil {
-			if u.id(bh) != st.Resolve[t-1] {
-				odd = append(odd, fmt.Sprintf("tx %d: GetCanonicalTransaction (cached) says block %d, database says %d", t, st.Resolve[t-1], u.id(bh)))
-			}
-		} else if st.Resolve[t-1] != -1 {
-			odd = append(odd, fmt.Sprintf("tx %d: GetCanonicalTransaction (cached) says block %d, database has no canonical transaction", t, st.Resolve[t-1]))
+			st.DResolve[t-1] = u.id(bh)
 		}
 		if r, bh, _, _ := rawdb.ReadCanonicalReceipt(db, h, bc.Config()); r != nil {
 			st.RResolve[t-1] = u.id(bh)
@@ -411,6 +408,9 @@ func normalize(s *State) {
 	}
 	if s.Resolve == nil {
 		s.Resolve = []int{}
+	}
+	if s.DResolve == nil {
+		s.DResolve = []int{}
 	}
 	if s.RResolve == nil {
 		s.RResolve = []int{}
